@@ -297,7 +297,10 @@ class Loops:
             for j, v in enumerate(self.eval_clauses(I, spec, frame, 'invariant')):
                 I.prove('%s:inv-preserve#loop%d.%d' % (fq, k, j + 1), 'invariant', I.truthy(v), node)
             var1 = self.eval_clauses(I, spec, frame, 'decreases')
-            if not var0:
+            if spec.of('partial'):
+                self.ctx.assumptions.add('termination of loop #%d of %s is NOT proved (partial correctness): %s'
+                                         % (k, fq, spec.of('partial')[0].args[0].value))
+            elif not var0:
                 I.prove('%s:variant-given#loop%d' % (fq, k), 'termination', False, node, detail='while loop without decreases clause')
             for a, b in zip(var0, var1):
                 I.prove('%s:variant#loop%d' % (fq, k), 'termination', z3.And(I.as_int(a) >= 0, I.as_int(b) < I.as_int(a)), node)
